@@ -7,6 +7,7 @@ ENG = {'Clipper2Lib::ClipperBase::AddPaths(': 'stub_addpaths', 'Clipper2Lib::Cli
        'Clipper2Lib::Clipper64::BuildPaths64(': 'stub_buildpaths64', 'Clipper2Lib::ClipperBase::CleanUp(': 'stub_cleanup'}
 BOTH = dict(OFFW, **ENG)
 BOTH['Clipper2Lib::ClipperOffset::CalcSolutionCapacity('] = 'stub_capacity'
+BOTH['Clipper2Lib::Clipper64::BuildTree64('] = 'stub_buildtree64'
 META = dict(
   level_text='Model checking of the state-handling mechanisms the property depends on: (offsetting) stub-and-observe of ClipperOffset::Execute/DoGroupOffset showing that what is done to a path or group does not depend on the paths/groups processed before it; (engine) the scratch state a history can leave behind is made symbolic and one Execute on concrete geometry must produce the result of a fresh object; CleanUp()/Clear() empty every per-execution container.',
   level_note='History is not enumerated: instead the state a history can leave behind is havocked (symbolic scalars, poisoned pointers). Geometry is concrete (corpus listed in evidence); the quantifier is over left-behind state, option values, delta/join/end types.',
@@ -24,5 +25,6 @@ OBLIGATIONS = [
   O('C12.e-groups-independent-empty-first', 'off_dispatch.cpp', 'harness_groups_independent', defs=['LEN0=0'], replace=BOTH, unwind=8, bound='group 1: one empty path (any end type); group 2: triangle; all deltas, join/end types, flags', desc='the second group is offset with the delta of the call (sign included) whatever group came first; clean-up union keeps orientation flags'),
   O('C12.e-groups-independent-2', 'off_dispatch.cpp', 'harness_groups_independent', defs=['LEN0=2'], replace=BOTH, unwind=8, bound='group 1: two-point path; group 2: triangle', desc='as above'),
   O('C12.e-groups-independent-1', 'off_dispatch.cpp', 'harness_groups_independent', defs=['LEN0=1'], replace=BOTH, unwind=8, tiers='x', bound='group 1: single point; group 2: triangle', desc='as above'),
+  O('C12.e-execute-overloads', 'off_dispatch.cpp', 'harness_execute_overloads', replace=BOTH, unwind=8, bound='one triangle group; Execute(tree), Execute(paths), Execute(other tree) on one ClipperOffset; all deltas and join types', desc='each Execute overload delivers the clean-up union into the container of that call (paths after tree, tree after paths)'),
   O('C12.d-paths-independent-2-3', 'off_dispatch.cpp', 'harness_dispatch_independent', defs=['LEN0=2', 'LEN1=3'], replace=OFFW, unwind=8, bound='group of a 2-point and a 3-point path', desc='per-path dispatch does not depend on earlier paths of the group (shared with C07.a)'),
 ]
